@@ -217,12 +217,13 @@ theorem isNone_eq_none (v : Val α) (h : v.isNone = true) : v = Val.none := by
 line is covered by a `toDict` line (same key, same slot, a skippable write only read tolerantly), and ANY
 state `s` whose mandatory slots hold arrays (any shapes, any contents), loading the saved file into ANY
 model state `s0` succeeds; afterwards every slot named by a `fromDict` line holds exactly what it held in
-`s` — including `None` in an optional slot — and every other slot is what it was in `s0`. -/
+`s` — including `None` in an optional slot — and every other slot is what it was in `s0`, or `None` if
+`fromDict` resets it. -/
 theorem roundtrip (sp : Spec) (hnd : (sp.writes.map Entry.key).Nodup)
     (hcov : ∀ e ∈ sp.reads, covers sp.writes e = true) (s s0 : State α)
     (hnn : ∀ w ∈ sp.writes, w.opt = false → (s w.slot).isNone = false) :
     ∃ s', load sp (save sp s) s0 = .ok s' ∧ (∀ e ∈ sp.reads, s' e.slot = s e.slot) ∧
-      (∀ x, (∀ e ∈ sp.reads, e.slot ≠ x) → s' x = s0 x) := by
+      (∀ x, (∀ e ∈ sp.reads, e.slot ≠ x) → s' x = applyResets sp.resets s0 x) := by
   -- 1. the archive holds no None
   have hfile : ∀ x ∈ toDict sp.writes s, x.2.isNone = false := by
     intro x hx
@@ -253,7 +254,7 @@ theorem roundtrip (sp : Spec) (hnd : (sp.writes.map Entry.key).Nodup)
       simp only [Bool.and_eq_true] at hsk
       have := isNone_eq_none _ hsk.2
       simp [Dict.get?, hopt hsk.1, ← hsl, this]
-  refine ⟨applyReads sp.reads (toDict sp.writes s) s0, ?_, ?_, ?_⟩
+  refine ⟨applyReads sp.reads (toDict sp.writes s) (applyResets sp.resets s0), ?_, ?_, ?_⟩
   · unfold load
     rw [hload]
     exact fromDict_ok _ _ _ (fun e he => (hfind e he).1)
@@ -363,7 +364,8 @@ theorem covers_expand (GW PW GR PR : List Entry) (phases : List String)
 
 /-- `toDict` / `fromDict` of a `PrecipitateModel` with the given phase names -/
 def precipSpec (phases : List String) : Spec :=
-  { writes := expand precipGlobalW precipPhaseW phases, reads := expand precipGlobalR precipPhaseR phases }
+  { writes := expand precipGlobalW precipPhaseW phases, reads := expand precipGlobalR precipPhaseR phases,
+    resets := expandSlots precipGlobalReset precipPhaseReset phases }
 
 /-- the sixteen recorded histories the property names -/
 def histories : List String :=
@@ -448,10 +450,15 @@ theorem precip_roundtrip (phases : List String) (hph : phases.Nodup) (s s0 : Sta
   exact h2 e he
 
 /-- **finding F-C20-psdrec, on the generated tables**: no `toDict` / `fromDict` line touches the recorded
-size-distribution history -/
+size-distribution history, and `fromDict` resets it (it replaces the PopulationBalanceModel objects) -/
 theorem psd_recording_not_in_tables :
     ∀ o ∈ psdRecording, o ∉ precipPhaseW.map Entry.slot ∧ o ∉ precipPhaseR.map Entry.slot ∧
-      o ∉ precipGlobalW.map Entry.slot ∧ o ∉ precipGlobalR.map Entry.slot := by
+      o ∉ precipGlobalW.map Entry.slot ∧ o ∉ precipGlobalR.map Entry.slot ∧ o ∈ precipPhaseReset := by
+  decide
+
+/-- the only slots `fromDict` resets are the recorded size-distribution history; none of them is also read -/
+theorem precip_resets_are_the_recording :
+    precipGlobalReset = [] ∧ (∀ r ∈ precipPhaseReset, r ∈ psdRecording ∧ r ∉ precipPhaseR.map Entry.slot) := by
   decide
 
 theorem at_injective (a b ph : String) (h : a ++ "@" ++ ph = b ++ "@" ++ ph) : a = b := by
@@ -459,17 +466,23 @@ theorem at_injective (a b ph : String) (h : a ++ "@" ++ ph = b ++ "@" ++ ph) : a
   exact append_right_inj_str _ _ _ this
 
 /-- … hence a reloaded model does NOT reproduce the recorded size-distribution history: after
-`load (save s)` these slots hold what the freshly constructed model held (`None`), whatever was recorded.
-The excluded observables are visible here; `precip_roundtrip` is the partial theorem without them. -/
+`load (save s)` these slots hold `None`, whatever was recorded and whatever the freshly constructed model
+held.  The excluded observables are visible here; `precip_roundtrip` is the partial theorem without them. -/
 theorem psd_recording_lost (ph : String) (s s0 : State α)
     (hnn : ∀ w ∈ (precipSpec [ph]).writes, (s w.slot).isNone = false) :
     ∃ s', load (precipSpec [ph]) (save (precipSpec [ph]) s) s0 = .ok s' ∧
-      ∀ o ∈ psdRecording, s' (o ++ "@" ++ ph) = s0 (o ++ "@" ++ ph) := by
+      ∀ o ∈ psdRecording, s' (o ++ "@" ++ ph) = Val.none := by
   obtain ⟨hg, hp, hpf⟩ := precip_keys_ok
   obtain ⟨s', h1, _, h3⟩ := roundtrip (precipSpec [ph])
     (expand_keys_nodup _ _ _ hg hp hpf (by simp))
     (covers_expand _ _ _ _ _ precip_reads_covered.1 precip_reads_covered.2) s s0 (fun w hw _ => hnn w hw)
-  refine ⟨s', h1, fun o ho => h3 _ ?_⟩
+  refine ⟨s', h1, fun o ho => ?_⟩
+  have hreset : (o ++ "@" ++ ph) ∈ (precipSpec [ph]).resets := by
+    unfold precipSpec expandSlots
+    simp only [List.mem_append, List.mem_flatMap, List.mem_map, List.mem_singleton]
+    exact Or.inr ⟨ph, rfl, o, (psd_recording_not_in_tables o ho).2.2.2.2, rfl⟩
+  rw [h3 _ ?_]
+  · simp [applyResets, hreset]
   intro e he hs
   rcases (mem_expand _ _ _ _).mp he with h | ⟨ph', hph', p, hp', rfl⟩
   · -- a global slot never carries a phase suffix: all of them are in the generated list, decide
@@ -485,7 +498,7 @@ theorem psd_recording_lost (ph : String) (s s0 : State α)
 
 /-! ### the diffusion model (tables generated from Diffusion.py) -/
 
-def diffSpec : Spec := { writes := diffW, reads := diffR }
+def diffSpec : Spec := { writes := diffW, reads := diffR, resets := diffReset }
 
 def diffObservables : List String := ["t", "x", "_recordedX", "_recordedTime"]
 
@@ -493,13 +506,13 @@ def diffObservables : List String := ["t", "x", "_recordedX", "_recordedTime"]
 current profile and the recorded arrays are all written and read -/
 theorem diff_tables_ok :
     (∀ e ∈ diffR, covers diffW e = true) ∧ (diffW.map Entry.key).Nodup ∧
-    (∀ o ∈ diffObservables, o ∈ diffW.map Entry.slot ∧ o ∈ diffR.map Entry.slot) := by
+    (∀ o ∈ diffObservables, o ∈ diffW.map Entry.slot ∧ o ∈ diffR.map Entry.slot) ∧ diffReset = [] := by
   decide
 
 /-- the lines for the recorded arrays (which are `None` when recording is off) can be skipped; the current
 time and profile are always saved -/
 theorem diff_recording_lines_optional :
-    ∀ w ∈ diffW, w.opt = false → w.slot = "t" ∨ w.slot = "x" := by
+    ∀ w ∈ diffW, Entry.opt w = false → Entry.slot w = "t" ∨ Entry.slot w = "x" := by
   decide
 
 /-- **round trip, diffusion model, whatever the recording options**: the current time and profile are always
@@ -508,10 +521,12 @@ every case the saved file loads and all four observables come back exactly, `Non
 theorem diff_roundtrip_any_recording (s s0 : State α)
     (ht : (s "t").isNone = false) (hx : (s "x").isNone = false) :
     ∃ s', load diffSpec (save diffSpec s) s0 = .ok s' ∧ ∀ o ∈ diffObservables, s' o = s o := by
-  obtain ⟨hc, hk, hobs⟩ := diff_tables_ok
+  obtain ⟨hc, hk, hobs, _⟩ := diff_tables_ok
   obtain ⟨s', h1, h2, _⟩ := roundtrip diffSpec hk hc s s0 (by
     intro w hw ho
-    rcases diff_recording_lines_optional w hw ho with h | h <;> rw [h] <;> assumption)
+    rcases diff_recording_lines_optional w hw ho with h | h
+    · rw [h]; exact ht
+    · rw [h]; exact hx)
   refine ⟨s', h1, fun o ho => ?_⟩
   obtain ⟨e, he, hs⟩ := List.mem_map.mp (hobs o ho).2
   exact hs ▸ h2 e he
@@ -533,7 +548,9 @@ theorem diff_unrepaired_fails (s0 : State Nat) :
     load diffUnrepaired (save diffUnrepaired recordOff) s0 = .error .objectArray := by
   unfold load
   have : npzLoad (save diffUnrepaired recordOff) = .error .objectArray :=
-    npzLoad_none _ "recordX" (by decide)
+    npzLoad_none _ "recordX" (by
+      simp [save, npzSave, toDict, diffUnrepaired, writeStep, skipped, Entry.opt, Entry.key, Entry.slot,
+        recordOff, Dict.get?])
   rw [this]; rfl
 
 /-! ### untrained surrogates -/
@@ -607,6 +624,9 @@ theorem flatten_tolist [Inhabited α] (sh : List Nat) (d : List α) (h : d.lengt
     rw [flatten_map_tolist sh ih _ (chunks_mem_length _ _ _ h'), chunks_flatten, ← h']
     exact List.take_length
 
+theorem shapeOf_succ (k : Nat) (xs : List (Nest α k)) :
+    shapeOf (k+1) xs = List.length xs :: (match xs with | [] => [] | x :: _ => shapeOf k x) := rfl
+
 /-- … and, when no axis is empty, the shape of `a` -/
 theorem shapeOf_tolist [Inhabited α] (sh : List Nat) (d : List α) (h : d.length = prod sh)
     (hpos : ∀ n ∈ sh, 0 < n) : shapeOf sh.length (tolist sh d) = sh := by
@@ -615,13 +635,14 @@ theorem shapeOf_tolist [Inhabited α] (sh : List Nat) (d : List α) (h : d.lengt
   | cons n sh ih =>
     have h' : d.length = n * prod sh := h
     have hn : 0 < n := hpos n (by simp)
-    show List.length ((chunks (prod sh) n d).map (tolist sh)) ::
-      (match (chunks (prod sh) n d).map (tolist sh) with
-        | [] => List.replicate sh.length 0 | x :: _ => shapeOf sh.length x) = n :: sh
     obtain ⟨n', rfl⟩ : ∃ n', n = n' + 1 := ⟨n - 1, by omega⟩
-    simp only [chunks, List.map_cons, List.length_cons, List.length_map, chunks_length]
     have hlen : prod sh ≤ d.length := by rw [h', Nat.succ_mul]; exact Nat.le_add_left _ _
-    rw [ih (d.take (prod sh)) (by simp [List.length_take, hlen]) (fun m hm => hpos m (List.mem_cons_of_mem _ hm))]
+    have ih' := ih (d.take (prod sh)) (by simp [List.length_take, hlen])
+      (fun m hm => hpos m (List.mem_cons_of_mem _ hm))
+    show shapeOf (sh.length + 1) ((chunks (prod sh) (n'+1) d).map (tolist sh)) = (n'+1) :: sh
+    rw [shapeOf_succ]
+    simp only [chunks, List.map_cons, List.length_cons, List.length_map, chunks_length]
+    rw [ih']
 
 /-- **JSON round trip, one entry**: a well-formed array of any rank (and a flag) comes back unchanged -/
 theorem json_roundtrip_field [Inhabited α] (f : Field α) (h : f.wf) : decodeField (encodeField f) = f := by
@@ -644,7 +665,7 @@ theorem json_roundtrip [Inhabited α] (d : DataDict α) (h : ∀ e ∈ d, e.2.wf
 
 /-- the hypothesis "no empty axis" is needed: an array of shape (0, 3) comes back with shape (0,) -/
 example : decodeField (encodeField (Field.array [0, 3] ([] : List Nat))) = Field.array [0] [] := by
-  simp [encodeField, decodeField, tolist, chunks, shapeOf, flatten]
+  rfl
 
 /-! ### non-vacuity -/
 
@@ -661,7 +682,7 @@ example : ∃ s' : State Nat, load diffSpec (save diffSpec recordOff) (fun _ => 
   obtain ⟨s', h1, h2⟩ := diff_roundtrip_any_recording recordOff (fun _ => .arr [1] [0]) (by decide) (by decide)
   refine ⟨s', h1, ?_⟩
   rw [h2 "_recordedX" (by decide)]
-  decide
+  simp [recordOff]
 
 example : (Field.array [2, 3] [1, 2, 3, 4, 5, 6] : Field Nat).wf := by
   refine ⟨rfl, ?_⟩
